@@ -47,8 +47,9 @@ func specs() []*Spec {
 		},
 		{
 			ID:     "C09",
-			Units:  []Unit{{Pkg: "", Job: "C09", Quick: []string{"default", "force32bit"}, Thorough: []string{"default", "force32bit"}}},
-			Rule:   "E1 enumeration: small-order predicate on the complete set of 14 torsion encodings, all 38 y>=p strings and undecodable strings; [k]B+T_i for 13 (quick 5) scalars k != 0 mod L x all 8 torsion points as key and as R, end to end in default mode (single, batch positions 0/3 of 4, 63/64 of 65, 64 of 130); each torsion encoding as key / as R in an equation-satisfying triple (default rejects, ZIP-215 accepts); exhaustive scan of y in [0,2^14) (thorough 2^18) x sign bit against the model. non-trivial = torsion or undecodable string, or an end-to-end triple.",
+			Units: []Unit{{Pkg: "", Job: "C09", Quick: []string{"default", "force32bit"}, Thorough: []string{"default", "force32bit"}},
+				{Pkg: "internal/ge25519", Job: "C09g", Quick: []string{"default", "force32bit"}, Thorough: layoutCfg}},
+			Rule:   "E1 enumeration: small-order predicate on the complete set of 14 torsion encodings, all 38 y>=p strings and undecodable strings; [k]B+T_i for 13 (quick 5) scalars k != 0 mod L x all 8 torsion points as key and as R, end to end in default mode (single, batch positions 0/3 of 4, 63/64 of 65, 64 of 130); each torsion encoding as key / as R in an equation-satisfying triple (default rejects, ZIP-215 accepts); exhaustive scan of y in [0,2^14) (thorough 2^18) x sign bit against the model. Group level (job C09g): IsNeutralVartime, CofactorMultiply and CofactorEqual on 3 representations (normalised by Z in 7 values; limbs left unreduced by one Add; by one Sub) of the 8 torsion points, 40 mixed-order points and the points with tiny x. non-trivial = torsion or undecodable string, or an end-to-end triple.",
 			Assume: trusted,
 		},
 		{
@@ -91,7 +92,7 @@ func specs() []*Spec {
 			ID: "C10",
 			Units: []Unit{{Pkg: "internal/ge25519", Job: "C10", Quick: []string{"default", "force32bit"}, Thorough: []string{"default", "force32bit", "386", "noasm+appengine"}},
 				{Pkg: "extra/x25519", Job: "C10x", Quick: []string{"default", "force32bit"}, Thorough: []string{"default", "force32bit", "386"}}},
-			Rule:   "E1 enumeration: every y in [0,2^14) (thorough 2^18) x sign bit; the 2^9 (2^12) largest 255-bit y x sign (all 19 y >= p included); 2^k, 2^k+-1 for k < 255 x sign; public keys of 64 seeds. For each string: decodability == Euler criterion of the model, Pack(UnpackVartime(s)) == canonical encoding of the model's point, UnpackNegativeVartime gives the negation, Z = 1 and T = XY, decode-encode-decode is stable; both square-root branches (candidate root / root times sqrt(-1)), x = 0 and y >= p classes must be non-empty. Pack of non-normalised representations: 8 torsion + 26 (thorough 502) points x Z in {1,2,p-1,2^255-20,a0,19}, and with limbs left unreduced by one Add/Sub. non-trivial = decodable string or Pack case. The Ed25519-to-X25519 public-key conversion is run on the same string alphabet (job C10x): it must accept exactly the decodable strings and return the canonical (1+y)/(1-y).",
+			Rule:   "E1 enumeration: every y in [0,2^14) (thorough 2^18) x sign bit; the 2^9 (2^12) largest 255-bit y x sign (all 19 y >= p included); 2^k, 2^k+-1 for k < 255 x sign; public keys of 64 seeds. For each string: decodability == Euler criterion of the model, Pack(UnpackVartime(s)) == canonical encoding of the model's point, UnpackNegativeVartime gives the negation, Z = 1 and T = XY, decode-encode-decode is stable; both square-root branches (candidate root / root times sqrt(-1)), x = 0 and y >= p classes must be non-empty. Pack of non-normalised representations: 8 torsion + 26 (thorough 502) points x Z in {1,2,p-1,2^255-20,a0,19}. non-trivial = decodable string or Pack case. The Ed25519-to-X25519 public-key conversion is run on the same string alphabet (job C10x): it must accept exactly the decodable strings and return the canonical (1+y)/(1-y).",
 			Assume: append(trusted, "field Contract/Expand as decided by C18"),
 		},
 		{
